@@ -264,6 +264,9 @@ fn sweep_case(idx: u64, rec: &mut Rec) {
         4 => [b"HTTP/1.".as_ref(), &[b], b" 200 OK\r\n\r\n"].concat(),
         5 => [b"HTTP/1.1 302 F\r\nLocation: /a".as_ref(), &[b], b"b\r\nContent-Length: 0\r\n\r\n"].concat(),
         6 => [b"HTTP/1.1 200 OK\r\nContent-Length: 1".as_ref(), &[b], b"\r\n\r\n"].concat(),
+        // (the first digit of the status code, and codes below 100: three digits that are no status)
+        8 => [b"HTTP/1.1 ".as_ref(), &[b], b"99 Odd\r\nContent-Length: 0\r\n\r\n"].concat(),
+        9 => [b"HTTP/1.1 0".as_ref(), &[b], b"0 \r\n\r\n"].concat(),
         _ => [b"HTTP/1.1 200 OK\r\nTransfer-Encoding: chunke".as_ref(), &[b], b"\r\n\r\n"].concat(),
     };
     offer(Target::Response, &s, false, rec);
@@ -843,7 +846,7 @@ impl Property for P {
             Workload::new("alphabet-short", (1..l).map(|n| 11u64.pow(n)).sum::<u64>() * 10, true, "all shorter strings"),
             Workload::new(if k == 3 { "tokens-3" } else { "tokens-5" }, 20u64.pow(k) * 4, true, format!("all sequences of {} tokens x 2 calls x whole/growing", k)),
             Workload::new("tokens-short", (1..k).map(|n| 20u64.pow(n)).sum::<u64>() * 4, true, "all shorter token sequences"),
-            Workload::new("byte-sweeps", 8 * 256, true, "every byte value at 8 head positions and 2 chunk positions"),
+            Workload::new("byte-sweeps", 10 * 256, true, "every byte value at 10 head positions (incl. the first digit of the status code and codes below 100) and 2 chunk positions"),
             Workload::new("chunk-size-lines", 24 * 8 * 2, true, "chunk size lines of every length 1..=24 x 8 digit patterns x extension"),
             Workload::new("mutations", tier.pick(30_000, 6_000_000), false, "mutated valid exchanges under random schedules"),
             Workload::new("deep-input", 6 * 4 * 2, true, "300..40000 copies of one small unit (interim responses, empty lines, one-byte chunks, trailer lines) in a single buffer x 2 routes; each cell in a child process, judged by how the child ended"),
